@@ -6,7 +6,9 @@
 (* `taskctl run task T..` (tasks only: a pipeline name is an unknown task there).         *)
 EXTENDS Naturals, Sequences, FiniteSets, TLC, Json
 CONSTANT MaxLen
-Kinds == {"okTask", "failTask", "okPipe", "failPipe", "skipTask", "unknown"}
+\* failHook: a task that fails without any command exiting non-zero (its before hook fails);
+\* failVar: a task whose command refers to an undefined variable
+Kinds == {"okTask", "failTask", "failHook", "failVar", "okPipe", "failPipe", "skipTask", "unknown"}
 Forms == {"root", "run", "runtask"}
 VARIABLES argv, form, i, ran, exit
 vars == <<argv, form, i, ran, exit>>
@@ -20,7 +22,7 @@ Succeeds(k) == Eff(k) \in {"okTask", "okPipe", "skipTask"}
 RunTarget == /\ exit = "running" /\ i <= Len(argv)
              /\ LET k == Eff(argv[i]) IN
                 CASE k \in {"okTask", "okPipe", "skipTask"} -> ran' = Append(ran, i) /\ i' = i + 1 /\ UNCHANGED exit
-                  [] k \in {"failTask", "failPipe"} -> ran' = Append(ran, i) /\ exit' = "1" /\ UNCHANGED i
+                  [] k \in {"failTask", "failHook", "failVar", "failPipe"} -> ran' = Append(ran, i) /\ exit' = "1" /\ UNCHANGED i
                   [] OTHER -> exit' = "1" /\ UNCHANGED <<ran, i>>
              /\ UNCHANGED <<argv, form>>
 \* every target done: app.Run returns nil
